@@ -270,7 +270,7 @@ Definition h_step (c : cfg) (bkt : str) (fuel : nat) (objs : gstore) (r : resour
       let '(o1, r1, h1, p, e) := gf_seek bkt objs r h off wh in (o1, r1, h1, GPos p e)
   | HTruncate _ n =>
       let '(o1, r1, t) := gf_truncate bkt fuel objs r h n in
-      (o1, r1, h, match t with TOk => GOk | TErr e => GErr e | TFuel => GFuel end)
+      (o1, r1, h, match t with TrOk => GOk | TrErr e => GErr e | TrFuel => GFuel end)
   | HClose _ =>
       let '(o1, r1, h1, e) := gf_close bkt objs r h in (o1, r1, h1, of_opt e)
   | HSync _ =>
